@@ -112,7 +112,8 @@ fn extract_ipv4_info(packet: &[u8]) -> Option<(IpAddr, IpAddr, u16, u16)> {
 
     // Get IP header length (first 4 bits of byte 0, in 32-bit words)
     let ihl = (packet[0] & 0x0F) as usize;
-    let ip_header_len = ihl.saturating_mul(4);
+    // pnet places the payload after max(ihl*4, 20) bytes; read the ports where the analyzer will
+    let ip_header_len = ihl.saturating_mul(4).max(20);
 
     // TCP header starts after IP header
     let tcp_offset = ip_header_len;
